@@ -2,7 +2,7 @@ pub struct Error;
 
 #[inline(always)]
 fn digit(c: u8) -> Result<u8, Error> {
-    c.is_ascii_digit().then_some(c - b'0').ok_or(Error)
+    if c.is_ascii_digit() { Ok(c - b'0') } else { Err(Error) }
 }
 
 #[inline(always)]
